@@ -137,7 +137,7 @@ def discover_harnesses(prop):
                 "bound": " ".join(reversed(ann.get("bound", []))) or " ".join(defaults.get("bound", [])),
                 "out": " ".join(reversed(ann.get("out", []))) or " ".join(defaults.get("out", [])),
                 "flags": " ".join(ann.get("flags", [])),
-                "stubs": ann.get("stub", []),
+                "stubs": ann.get("stub") or defaults.get("stub") or [],
                 "release": "release" in ann,
                 "doc": " ".join(doc),
             }
